@@ -19,7 +19,7 @@ Inductive val : Type :=
 
 (* Exception classes of the implementation, compared by class only (DESIGN 2.4). *)
 Inductive err : Type :=
-| EKey | ERuntime | EType | EIndex | ENotImpl | EValidation | EAssert | EValue | EDecode.
+| EKey | ERuntime | EType | EIndex | ENotImpl | EValidation | EAssert | EValue | EDecode | EOther.
 
 Definition res (A : Type) : Type := sum err A.
 Definition ok {A} (a : A) : res A := inr a.
@@ -38,7 +38,7 @@ Definition err_name (e : err) : string :=
   match e with
   | EKey => "KeyError" | ERuntime => "RuntimeError" | EType => "TypeError" | EIndex => "IndexError"
   | ENotImpl => "NotImplementedError" | EValidation => "Validation" | EAssert => "AssertionError"
-  | EValue => "ValueError" | EDecode => "DecodeError"
+  | EValue => "ValueError" | EDecode => "DecodeError" | EOther => "Other"
   end.
 
 (* A model reply: either the error class or a value. *)
